@@ -1,13 +1,14 @@
 #!/bin/bash
-# usage: process_seed5.sh <PROP> <nameA> <nameB>   (names without the property prefix)
-P=$1; W=/tmp/seed5_$P
+# usage: process_seed.sh <round> <PROP> <nameA> <nameB>   (names without the property prefix)
+# Confirms each delivered change (suite, demo with / without) and evaluates the property's quick check in the agent's worktree.
+R=$1; P=$2; W=/tmp/seed${R}_$P
 for X in A B; do
-  N=$2; [ $X = B ] && N=$3
+  N=$3; [ $X = B ] && N=$4
   [ -z "$N" ] && continue
   NAME=$P-$N
+  if [ -e /verif/seeded/$NAME ]; then echo "$NAME: a seed of that name exists already, choose another name"; continue; fi
   if [ ! -f $W/seed$X.diff ] || [ ! -f $W/demo$X.py ]; then echo "$NAME: deliverables missing"; continue; fi
   r=$(/verif/tools/confirm_seed2.sh $W $P $NAME $W/seed$X.diff $W/demo$X.py 2>&1 | tail -1)
-  # evaluate in the agent's own worktree (parallel-safe; /repo is not touched)
   git -C $W apply /verif/seeded/$NAME/patch.diff
   out=$(cd /verif && /venv/bin/python check.py --property $P --tier quick --no-evidence --repo $W 2>&1); rc="exit=$?"
   git -C $W apply -R /verif/seeded/$NAME/patch.diff
